@@ -44,6 +44,7 @@ enum
     K_BIGACQ,  // a tiff / tiff-json acquisition of a few ~1 GiB frames (sparse): file offsets beyond 4 GiB
     K_INTRUDER, // a second device is pointed at the running device's output and started: refused, and harmless
     K_SWITCH,   // park the active device as it is and work with the other one
+    K_CROSS,    // scenario macro: see do_cross
     K_COUNT
 };
 
@@ -53,6 +54,7 @@ const VhKindSpec kKinds[K_COUNT] = {
     { "STOP", 3, 0, 0, 0, 65535 },           { "CLOSE", 2, 0, 0, 0, 0 },           { "SHORT", 2, 255, 65535, 0, 0 },
     { "FAIL", 3, 255, 255, 1, 0 },           { "BIGACQ", 1, 255, 65535, 0, 0 },
     { "INTRUDER", 2, 255, 0, 0, 0 },          { "SWITCH", 3, 0, 0, 0, 0 },
+    { "CROSS", 2, 255, 65535, 65535, 0 },
 };
 
 enum
@@ -91,6 +93,7 @@ enum
     CL_INTRUDER_ADMITTED,
     CL_TWO_DEVICES,
     CL_TWO_DEVICES_RUNNING,
+    CL_CROSS,
 };
 
 const VhSpec kSpec = {
@@ -104,7 +107,7 @@ const VhSpec kSpec = {
       "fault_fired", "fault_open", "fault_flock", "fault_pwrite", "fault_persistent", "device_used_after_fault", "failed_append_reported",
       "close_while_running", "close_without_start", "start_stop_without_frames", "f32_frames", "odd_image_size", "raw_file_compared",
       "tiff_file_read_back", "restart_without_set", "file_offsets_beyond_4GiB", "second_device_on_running_file_refused",
-      "second_device_on_running_file_admitted", "two_devices_open", "two_devices_running", nullptr },
+      "second_device_on_running_file_admitted", "two_devices_open", "two_devices_running", "cross_device_descriptor_reuse_scenario", nullptr },
     { "C14 non-trivial: a raw file was compared byte for byte AND (>=2 acquisitions on that device, or a short write inside a multi-frame packet)",
       "C15 non-trivial: a TIFF file was read back AND (N>=2 frames in >=2 packets, or >=2 start/stop cycles on one device, or tiff-json)",
       "C16 non-trivial: an injected fault fired and the device was used again afterwards, or close while running / without start with the "
@@ -824,9 +827,13 @@ do_close(Ctx& x)
         return;
     (void)closes_before;
     if (x.my_open() != 0) {
-        x.c.fail("C16", "descriptor-leak", kKindName[x.kind], "%s: %d descriptor(s) opened by the device are still open after the device was closed (e.g. fd %d)%s",
+        // soft in runs that decide another property: with two devices a wrong close shows here first, and
+        // the damage to the other device's file is what C14 / C15 runs are there to see
+        bool ended = x.c.fail_soft("C16", "descriptor-leak", kKindName[x.kind], "%s: %d descriptor(s) opened by the device are still open after the device was closed (e.g. fd %d)%s",
                  kKindName[x.kind], x.my_open(), vfd::open_owned().empty() ? -1 : vfd::open_owned()[0], x.parked_open ? "  [a second device holds descriptors of its own; they are not counted]" : "");
-        return;
+        if (ended)
+            return;
+        x.parked_open = vfd::open_owned_count(); // the closed device holds nothing by definition
     }
     x.pending.clear();
     x.pending_frames.clear();
@@ -852,6 +859,104 @@ do_switch(Ctx& x)
         if (x.acq.started && x.parked.acq.started)
             x.c.cls(CL_TWO_DEVICES_RUNNING);
     }
+}
+
+// Scenario macro (descriptor numbers reused across devices): device X meets a write failure in an
+// append; device Y is started (the OS hands out the lowest free descriptor number, possibly the one X
+// just gave up); X is closed; device Z is opened and started; Y and Z go on appending and are stopped.
+// Every file is judged as usual, so a device that closes or writes a number it no longer owns shows
+// up as frames missing from one file / foreign frames in another, and in the descriptor ledger.
+void
+do_cross(Ctx& x, const VhTok& t)
+{
+    if (x.dev || x.parked.dev)
+        return; // only from a clean slate
+    static const int kinds[4] = { 0, 0, 1, 2 };
+    int kx = kinds[t.a % 4], ky = kinds[(t.a / 4) % 4], kz = kinds[(t.a / 16) % 4];
+    uint64_t h = vh_mix64(((uint64_t)t.b << 16) | t.c);
+    x.c.trace("CROSS scenario: X=%s fails an append, Y=%s starts, X is closed, Z=%s starts, Y and Z continue", kKindName[kx], kKindName[ky], kKindName[kz]);
+    x.c.cls(CL_CROSS);
+    auto frames = [&](int nf, uint64_t salt) {
+        for (int i = 0; i < nf && !x.c.ended && x.acq.started; ++i) {
+            uint64_t s2 = vh_mix64(h + salt * 977 + i);
+            add_frame(x, (unsigned)(s2 % 8), (uint16_t)(s2 >> 8), (uint16_t)(s2 >> 24));
+        }
+    };
+    // X
+    do_open(x, kx);
+    if (x.c.ended)
+        return;
+    do_set(x, (unsigned)(h & 3), 0, 9);
+    do_start(x);
+    if (x.c.ended || !x.acq.started)
+        return;
+    frames(1 + (int)((h >> 4) % 2), 1);
+    if ((h >> 6) & 1)
+        do_append(x); // a successful packet first
+    if (x.c.ended || !x.acq.started)
+        return;
+    frames(1, 2);
+    {
+        vfd::Fault f;
+        static const int errs[3] = { EIO, ENOSPC, EFBIG };
+        f.call = vfd::C_PWRITE;
+        f.persistent = false;
+        f.err = errs[(h >> 8) % 3];
+        f.at = (long)((h >> 10) % 3);
+        vfd::arm(f);
+        x.any_fail_token = true;
+        x.c.trace("FAIL pwrite #%ld from now, errno=%d, transient", f.at, f.err);
+    }
+    do_append(x);
+    vfd::clear_faults();
+    if (x.c.ended)
+        return;
+    bool x_failed = !x.acq.started;
+    // Y
+    do_switch(x);
+    do_open(x, ky);
+    if (x.c.ended)
+        return;
+    do_set(x, (unsigned)((h >> 12) & 3), 0, 9);
+    do_start(x);
+    frames(1 + (int)((h >> 14) % 2), 3);
+    do_append(x);
+    if (x.c.ended)
+        return;
+    // X is closed (or, half of the time when it did not fail, stopped and closed)
+    do_switch(x);
+    if (x.acq.started)
+        do_stop(x);
+    if (!x.c.ended)
+        do_close(x);
+    if (x.c.ended)
+        return;
+    if (x_failed)
+        x.c.nontrivial(2);
+    // Z in X's slot
+    do_open(x, kz);
+    if (x.c.ended)
+        return;
+    do_set(x, (unsigned)((h >> 16) & 3), 0, 9);
+    do_start(x);
+    frames(1, 4);
+    do_append(x);
+    if (x.c.ended)
+        return;
+    // Y goes on
+    do_switch(x);
+    frames(1 + (int)((h >> 18) % 2), 5);
+    do_append(x);
+    if (!x.c.ended && x.acq.started)
+        do_stop(x);
+    if (x.c.ended)
+        return;
+    // Z goes on
+    do_switch(x);
+    frames(1, 6);
+    do_append(x);
+    if (!x.c.ended && x.acq.started)
+        do_stop(x);
 }
 
 // While the device is running, a second device (same kind, or the other single-file kind) is
@@ -1176,6 +1281,9 @@ vh_run(const VhTok* tape, size_t n, VhReport* rep)
                 break;
             case K_SWITCH:
                 do_switch(x);
+                break;
+            case K_CROSS:
+                do_cross(x, t);
                 break;
             case K_FAIL: {
                 x.any_fail_token = true;
